@@ -475,6 +475,14 @@ func (r *Rig) dialOne(ctx context.Context, s *Session, id turbotunnel.ClientID, 
 // budget is the stall budget: no verified byte anywhere in the session for this long.
 func (r *Rig) Run(s *Session, budget time.Duration) *Result {
 	res := &Result{Label: s.Label}
+	// a scripted outage (dial delay) is not a stall: the stall clock allows for the longest one
+	var longest time.Duration
+	for _, cr := range s.Carriers {
+		if d := time.Duration(cr.DialDelayMs) * time.Millisecond; d > longest {
+			longest = d
+		}
+	}
+	budget += longest
 	st := &sessState{spec: s, done: make(chan struct{})}
 	r.mu.Lock()
 	r.sessions[s.Label] = st
